@@ -35,6 +35,8 @@ SPEC = {
             "integer KEY fields at the root / nested / in list items, the finding regions F34/F35/F36/F53, stale list items (F50 regression), "
             "secrets of every method with UTF-8 lengths 31..1000 around the 32-byte key and the AES block (ASCII and multi-byte) at the root / nested / "
             "in list items / in typed lists and dicts, long strings (<= 2000) and binary values (<= 300), "
+            "format options colliding with the configuration's own names (YAML root_key = a top-level / nested field name or a key of a dict value, "
+            "XML root_tag = a field name, 'item', 'config', a type word; every kind for matrix cases, three at random otherwise), "
             "virtual/method fields, normalisation cases) plus seeded random schemas (depth <= 3, lists of schemas, config types, dynamic) with "
             "states reached by random valid assignments; cases that fit Config.v's vocabulary (int/str/bool/flag/any leaves, sub-schemas, lists "
             "of configurations, validators) reach their state by a configops history and are also evaluated by the model; non-trivial = at least "
